@@ -1,0 +1,89 @@
+//go:build verif
+
+package loader
+
+import (
+	"encoding/json"
+	"os"
+	"runtime"
+	"strconv"
+	"strings"
+	"sync"
+	"sync/atomic"
+)
+
+// VerifPhaseEvent is one step of the load pipeline: a frame opened ("load{project", "load{model", "model{", "file{",
+// "doc{"), a frame closed ("}model", "}file", "}doc"), or a phase completed without error. Switches are the option
+// switches in force for the frame that emitted it.
+type VerifPhaseEvent struct {
+	G        string   `json:"g"`
+	Name     string   `json:"e"`
+	Switches []string `json:"sw"`
+}
+
+var verifPhaseHook atomic.Pointer[func(VerifPhaseEvent)]
+
+// VerifSetPhaseHook installs (or, with nil, removes) the observer of pipeline steps (verification builds only).
+func VerifSetPhaseHook(h func(VerifPhaseEvent)) {
+	if h == nil {
+		verifPhaseHook.Store(nil)
+		return
+	}
+	verifPhaseHook.Store(&h)
+}
+
+func verifSwitches(o *Options) []string {
+	sw := []string{}
+	add := func(on bool, name string) {
+		if on {
+			sw = append(sw, name)
+		}
+	}
+	add(o.SkipValidation, "SkipValidation")
+	add(o.SkipInterpolation || o.Interpolate == nil, "SkipInterpolation")
+	add(o.SkipNormalization, "SkipNormalization")
+	add(!o.ResolvePaths, "NoResolvePaths")
+	add(o.SkipConsistencyCheck, "SkipConsistencyCheck")
+	add(o.SkipExtends, "SkipExtends")
+	add(o.SkipInclude, "SkipInclude")
+	add(o.SkipResolveEnvironment, "SkipResolveEnvironment")
+	add(o.SkipDefaultValues, "SkipDefaultValues")
+	return sw
+}
+
+func verifGoroutine() string {
+	var b [64]byte
+	f := strings.Fields(string(b[:runtime.Stack(b[:], false)]))
+	if len(f) > 1 {
+		return f[1]
+	}
+	return "?"
+}
+
+func verifPhase(o *Options, name string) {
+	h := verifPhaseHook.Load()
+	if h == nil {
+		return
+	}
+	(*h)(VerifPhaseEvent{G: verifGoroutine(), Name: name, Switches: verifSwitches(o)})
+}
+
+// With VERIF_PHASE_TRACE=<file> every pipeline step of the process is appended to <file>.<pid> as one JSON line
+// (used to record the traces of the package's own tests).
+func init() {
+	path := os.Getenv("VERIF_PHASE_TRACE")
+	if path == "" {
+		return
+	}
+	f, err := os.OpenFile(path+"."+strconv.Itoa(os.Getpid()), os.O_APPEND|os.O_CREATE|os.O_WRONLY, 0o644)
+	if err != nil {
+		return
+	}
+	var mu sync.Mutex
+	enc := json.NewEncoder(f)
+	VerifSetPhaseHook(func(e VerifPhaseEvent) {
+		mu.Lock()
+		_ = enc.Encode(e)
+		mu.Unlock()
+	})
+}
